@@ -21,6 +21,7 @@ import (
 	"io"
 	"math/rand"
 	"net"
+	"sort"
 	"strings"
 	"sync"
 	"time"
@@ -28,7 +29,10 @@ import (
 	kafka "github.com/segmentio/kafka-go"
 	"github.com/segmentio/kafka-go/protocol"
 	"github.com/segmentio/kafka-go/protocol/apiversions"
+	"github.com/segmentio/kafka-go/protocol/describeconfigs"
+	"github.com/segmentio/kafka-go/protocol/describegroups"
 	"github.com/segmentio/kafka-go/protocol/findcoordinator"
+	"github.com/segmentio/kafka-go/protocol/listgroups"
 	"github.com/segmentio/kafka-go/protocol/listoffsets"
 	"github.com/segmentio/kafka-go/protocol/metadata"
 	"github.com/segmentio/kafka-go/protocol/offsetcommit"
@@ -55,6 +59,10 @@ type e2eCluster struct {
 	cutLO    map[int32]int
 	cutOF    map[int32]int
 	cutFrame int // length of the last frame subjected to a cut (4-byte size prefix included)
+	// fan-out APIs: while cutFor is set, every response to that api of a broker in cutAny is cut at byte k
+	cutFor    protocol.ApiKey
+	cutAny    map[int32]int
+	cutFrames map[int32]int // length of the last frame each broker subjected to such a cut
 	// version sweep: the ApiVersions answer pins these maxima; the four query APIs are answered with
 	// frames laid out BY HAND for the version of the request (versions.go), not with the library's encoder
 	hand      bool
@@ -120,6 +128,9 @@ func (e *e2eCluster) serve(id int32, c net.Conn) {
 				{ApiKey: int16(protocol.OffsetCommit), MinVersion: 0, MaxVersion: mv(protocol.OffsetCommit, 7)},
 				{ApiKey: int16(protocol.OffsetFetch), MinVersion: 0, MaxVersion: mv(protocol.OffsetFetch, 5)},
 				{ApiKey: int16(protocol.FindCoordinator), MinVersion: 0, MaxVersion: 2},
+				{ApiKey: int16(protocol.ListGroups), MinVersion: 0, MaxVersion: 2},
+				{ApiKey: int16(protocol.DescribeGroups), MinVersion: 0, MaxVersion: 4},
+				{ApiKey: int16(protocol.DescribeConfigs), MinVersion: 0, MaxVersion: 3},
 				{ApiKey: int16(protocol.ApiVersions), MinVersion: 0, MaxVersion: 2},
 			}}
 		case *metadata.Request:
@@ -151,6 +162,33 @@ func (e *e2eCluster) serve(id int32, c net.Conn) {
 			} else {
 				res = &findcoordinator.Response{NodeID: co, Host: e2eHost(int(co)), Port: 9092}
 			}
+		case *listgroups.Request:
+			r := &listgroups.Response{}
+			for _, g := range e.groupNames() {
+				if e.coord[g] == id {
+					r.Groups = append(r.Groups, listgroups.ResponseGroup{GroupID: g, ProtocolType: "consumer"})
+				}
+			}
+			res = r
+		case *describegroups.Request:
+			r := &describegroups.Response{}
+			for _, g := range m.Groups {
+				rg := describegroups.ResponseGroup{GroupID: g}
+				if co, ok := e.coord[g]; ok && co == id {
+					rg.GroupState, rg.ProtocolType, rg.ProtocolData = fmt.Sprintf("Stable-%d", id), "consumer", "range"
+				} else {
+					rg.ErrorCode = 16
+				}
+				r.Groups = append(r.Groups, rg)
+			}
+			res = r
+		case *describeconfigs.Request:
+			r := &describeconfigs.Response{}
+			for _, rs := range m.Resources {
+				r.Resources = append(r.Resources, describeconfigs.ResponseResource{ResourceType: rs.ResourceType, ResourceName: rs.ResourceName,
+					ConfigEntries: []describeconfigs.ResponseConfigEntry{{ConfigName: "answered.by", ConfigValue: fmt.Sprint(id)}}})
+			}
+			res = r
 		case *listoffsets.Request:
 			if e.dropOnLO[id] {
 				e.mu.Unlock()
@@ -227,6 +265,28 @@ func (e *e2eCluster) serve(id int32, c net.Conn) {
 			}
 		}
 		cutAt := -1
+		if e.cutFor == msg.ApiKey() && e.cutAny != nil {
+			if k, ok := e.cutAny[id]; ok {
+				var buf bytes.Buffer
+				if err := protocol.WriteResponse(&buf, version, corr, res); err != nil {
+					e.mu.Unlock()
+					return
+				}
+				frame := buf.Bytes()
+				e.cutFrames[id] = len(frame)
+				e.mu.Unlock()
+				if k < len(frame) {
+					if k > 0 {
+						c.Write(frame[:k])
+					}
+					return
+				}
+				if _, err := c.Write(frame); err != nil {
+					return
+				}
+				continue
+			}
+		}
 		switch msg.(type) {
 		case *listoffsets.Request:
 			if k, ok := e.cutLO[id]; ok {
@@ -303,7 +363,7 @@ func genE2E(r *rand.Rand) (*e2eCluster, int) {
 	e := &e2eCluster{nb: 2 + r.Intn(3), topic: []string{"orders", "e2e-topic", "t"}[r.Intn(3)],
 		coord: map[string]int32{}, committed: map[string]map[int32]commitState{}, asked: map[int32]int{},
 		refuse: map[int32]bool{}, dropOnLO: map[int32]bool{}, ghost: map[int32]bool{}, hidden: map[int32]bool{},
-		cutLO: map[int32]int{}, cutOF: map[int32]int{}, groupErr: map[string]int16{}}
+		cutLO: map[int32]int{}, cutOF: map[int32]int{}, groupErr: map[string]int16{}, cutFrames: map[int32]int{}}
 	np := 2 + r.Intn(5)
 	for p := 0; p < np; p++ {
 		st := &partState{leader: int32(r.Intn(e.nb)), epoch: int32(r.Intn(9)), start: int64(r.Intn(500))}
@@ -844,6 +904,165 @@ func tierCut(r *rand.Rand, stride int) {
 				region = "not-cut"
 			}
 			emit("cutof", I(int64(k))+" "+I(int64(frame)), "first="+first+" followup="+follow, []string{"cut-family", region, fmt.Sprintf("k=%d", k)})
+			e.close()
+			tr.CloseIdleConnections()
+		}
+	}
+}
+
+func (e *e2eCluster) groupNames() []string {
+	l := make([]string, 0, len(e.coord))
+	for g := range e.coord {
+		l = append(l, g)
+	}
+	sort.Strings(l)
+	return l
+}
+
+// tierCutFan: the fan-out / merge APIs of the Transport — ListGroups (one request per broker),
+// DescribeGroups (one per group, to its coordinator), DescribeConfigs (one per broker resource) —
+// where one or more of the sub-responses are delivered up to byte k and the connection is then
+// lost.  Each case lists the PARTS of the call in a canonical order (label, then either F = its
+// sub-response was cut, or the items its broker answered); the result is ERR or the sorted items.
+// Every case is followed by the same call with all brokers answering in full.
+func tierCutFan(r *rand.Rand, stride int) {
+	if stride < 1 {
+		stride = 1
+	}
+	apis := []struct {
+		name string
+		key  protocol.ApiKey
+		maxK int
+	}{{"ListGroups", protocol.ListGroups, 60}, {"DescribeGroups", protocol.DescribeGroups, 70}, {"DescribeConfigs", protocol.DescribeConfigs, 70}}
+	ctx := context.Background()
+	for _, api := range apis {
+		for k := 0; k <= api.maxK; k += stride {
+			e, bootstrap := genE2E(r)
+			tr := &kafka.Transport{Dial: e.dial, DialTimeout: 2 * time.Second}
+			client := &kafka.Client{Addr: kafka.TCP(e2eHost(bootstrap) + ":9092"), Transport: tr, Timeout: 5 * time.Second}
+			victims := map[int32]int{int32(r.Intn(e.nb)): k}
+			if r.Intn(3) == 0 {
+				victims[int32(r.Intn(e.nb))] = k
+			}
+			groups := e.groupNames()
+			type part struct {
+				label  string
+				broker int32
+				items  []string
+			}
+			var parts []part
+			var call func() ([]string, error)
+			switch api.name {
+			case "ListGroups":
+				for b := 0; b < e.nb; b++ {
+					p := part{label: fmt.Sprintf("b%d", b), broker: int32(b)}
+					for _, g := range groups {
+						if e.coord[g] == int32(b) {
+							p.items = append(p.items, S(g)+"@"+I(int64(b)))
+						}
+					}
+					parts = append(parts, p)
+				}
+				call = func() ([]string, error) {
+					res, err := client.ListGroups(ctx, &kafka.ListGroupsRequest{})
+					if err != nil {
+						return nil, err
+					}
+					if res.Error != nil {
+						return nil, res.Error
+					}
+					var l []string
+					for _, g := range res.Groups {
+						l = append(l, S(g.GroupID)+"@"+I(int64(g.Coordinator)))
+					}
+					return l, nil
+				}
+			case "DescribeGroups":
+				for _, g := range groups {
+					parts = append(parts, part{label: S(g), broker: e.coord[g], items: []string{S(g) + "/0/" + S(fmt.Sprintf("Stable-%d", e.coord[g]))}})
+				}
+				call = func() ([]string, error) {
+					res, err := client.DescribeGroups(ctx, &kafka.DescribeGroupsRequest{GroupIDs: groups})
+					if err != nil {
+						return nil, err
+					}
+					var l []string
+					for _, g := range res.Groups {
+						l = append(l, S(g.GroupID)+"/"+code(g.Error)+"/"+S(g.GroupState))
+					}
+					return l, nil
+				}
+			default:
+				var rs []kafka.DescribeConfigRequestResource
+				for b := 0; b < e.nb; b++ {
+					rs = append(rs, kafka.DescribeConfigRequestResource{ResourceType: kafka.ResourceTypeBroker, ResourceName: fmt.Sprint(b)})
+					parts = append(parts, part{label: fmt.Sprintf("b%d", b), broker: int32(b), items: []string{S(fmt.Sprint(b)) + "/0/" + S(fmt.Sprint(b))}})
+				}
+				call = func() ([]string, error) {
+					res, err := client.DescribeConfigs(ctx, &kafka.DescribeConfigsRequest{Resources: rs})
+					if err != nil {
+						return nil, err
+					}
+					var l []string
+					for _, x := range res.Resources {
+						by := "?"
+						if len(x.ConfigEntries) == 1 {
+							by = x.ConfigEntries[0].ConfigValue
+						}
+						l = append(l, S(x.ResourceName)+"/"+code(x.Error)+"/"+S(by))
+					}
+					return l, nil
+				}
+			}
+			run := func(after bool) {
+				e.mu.Lock()
+				e.cutFrames = map[int32]int{}
+				e.cutFor, e.cutAny = api.key, nil
+				if !after {
+					e.cutAny = victims
+				}
+				e.mu.Unlock()
+				t0 := time.Now()
+				items, err := call()
+				slow := time.Since(t0) > 2*time.Second
+				e.mu.Lock()
+				ps := make([]string, len(parts))
+				ncut := 0
+				for i, p := range parts {
+					n, asked := e.cutFrames[p.broker]
+					if _, v := victims[p.broker]; !after && v && asked && k < n {
+						ps[i] = p.label + ":F"
+						ncut++
+					} else {
+						ps[i] = p.label + ":" + join(p.items, "+")
+					}
+				}
+				e.mu.Unlock()
+				feats := []string{"cut-family", "fan-out", "api=" + api.name, fmt.Sprintf("brokers=%d", e.nb), fmt.Sprintf("k=%d", k)}
+				switch {
+				case after:
+					feats = append(feats, "after-cut")
+				case ncut == 0:
+					feats = append(feats, "not-cut")
+				case ncut == len(parts):
+					feats = append(feats, "cut", "all-failed")
+				default:
+					feats = append(feats, "cut", "some-failed")
+				}
+				rs := ""
+				if err != nil {
+					rs = "ERR"
+				} else {
+					sort.Strings(items)
+					rs = "OK:" + join(items, "+")
+				}
+				if slow {
+					rs += "SLOW"
+				}
+				emit("fan", api.name+" "+strings.Join(ps, ","), rs, feats)
+			}
+			run(false)
+			run(true)
 			e.close()
 			tr.CloseIdleConnections()
 		}
